@@ -33,7 +33,8 @@ fn parse_cert(ans: &str) -> (Vec<bool>, String, Vec<Option<Depth>>) {
     let flags: Vec<bool> = (0..6).map(|_| it.next().unwrap_or("f") == "t").collect();
     let rest = it.next().unwrap_or("");
     if rest.starts_with("ok ") {
-        let body = rest[3..].trim().trim_start_matches('(');
+        let body = rest[3..].trim();
+        let body = body.strip_prefix('(').unwrap_or(body);
         let mut cert = vec![];
         let mut chars = body.chars().peekable();
         while let Some(&ch) = chars.peek() {
@@ -188,7 +189,7 @@ fn main() {
             continue;
         }
         // dynamic re-check
-        let kinds: Vec<u8> = res
+        let mut kinds: Vec<u8> = res
             .instructions
             .iter()
             .map(|ip| match ip.element {
@@ -199,6 +200,13 @@ fn main() {
                 _ => 0,
             })
             .collect();
+        for i in 1..kinds.len() {
+            if let (Instruction::PushRet(a), Instruction::Jump(_)) = (&res.instructions[i - 1].element, &res.instructions[i].element) {
+                if *a == i + 1 {
+                    kinds[i] = 5;
+                }
+            }
+        }
         let snaps: Rc<RefCell<Vec<(usize, Depth, usize, usize, bool)>>> = Rc::new(RefCell::new(vec![]));
         let snaps2 = snaps.clone();
         let obs = Box::new(move |s: &Snapshot| {
@@ -219,6 +227,9 @@ fn main() {
                 ));
             }
         });
+        if let Ok(tp) = std::env::var("VERIF_C15_TRACE") {
+            let _ = std::fs::write(&tp, &text);
+        }
         let run = std::panic::catch_unwind(std::panic::AssertUnwindSafe(|| {
             run_instructions(res, udt, b"1\n2\n3\n", 20_000, Some(obs), false)
         }));
@@ -227,14 +238,12 @@ fn main() {
         }
         let trace = snaps.borrow();
         rep.bump_by("dynamic.instructions-observed", trace.len() as u64);
-        // base per activation: key (return depth, gosub depth); reset when an error has been handled
-        let mut bases: Vec<((usize, usize), Depth)> = vec![];
-        let mut tainted = false;
-        for (pc, d, rd, gd, err) in trace.iter() {
+        // activations: a call (PushRet + Jump) or a GOSUB starts a new one whose base is fixed by its
+        // first observed instruction; PopRet / RETURN end it. Error edges are outside the static model:
+        // tracing stops at the first handled error.
+        let mut acts: Vec<Option<Depth>> = vec![None];
+        for (pc, d, _rd, _gd, err) in trace.iter() {
             if *err {
-                tainted = true; // error edges are outside the static model
-            }
-            if tainted {
                 break;
             }
             let Some(Some(rel)) = cert.get(*pc) else {
@@ -248,31 +257,35 @@ fn main() {
                 });
                 break;
             };
-            while let Some((key, _)) = bases.last() {
-                if key.0 > *rd || key.1 > *gd {
-                    bases.pop();
-                } else {
-                    break;
-                }
-            }
-            let key = (*rd, *gd);
             let base = Depth { v: d.v - rel.v, r: d.r - rel.r, c: d.c - rel.c, p: d.p - rel.p, b: d.b - rel.b };
-            match bases.last() {
-                Some((k2, b2)) if *k2 == key => {
+            let top = acts.last_mut().unwrap();
+            match top {
+                None => *top = Some(base),
+                Some(b2) => {
                     if *b2 != base {
-                        let ins_kind = kinds[*pc];
                         rep.fail(Failure {
                             kind: Kind::ImplVsProperty,
                             signature: "dynamic:depth-differs-from-certificate".into(),
                             input: text.clone(),
-                            implementation: format!("at pc {} (kind {}) depths {:?}, certificate {:?}, activation base {:?}", pc, ins_kind, d, rel, b2),
+                            implementation: format!("at pc {} depths {:?}, certificate {:?}, activation base {:?}", pc, d, rel, b2),
                             expected: "depth = activation base + certified relative depth".into(),
                             note: "the real VM's stack depths do not follow the statically certified shape".into(),
                         });
                         break;
                     }
                 }
-                _ => bases.push((key, base)),
+            }
+            match kinds[*pc] {
+                5 => acts.push(None), // call
+                3 => acts.push(None), // gosub
+                2 | 4 => {
+                    if acts.len() > 1 {
+                        acts.pop();
+                    } else {
+                        break; // RETURN without GOSUB (a run-time error) or EXIT at top level
+                    }
+                }
+                _ => {}
             }
         }
         rep.bump("dynamic.programs-traced");
